@@ -8,10 +8,11 @@
 struct vf_reported {};
 // The recording reporter keeps only scalars (count, first and last report): an array indexed by a symbolic
 // counter would be expanded element-wise by the symbolic executor on every merged path.
-struct vf_report { int fatal; char const *file; unsigned long line; unsigned mask; unsigned long ord; unsigned nmask; };
+struct vf_report { int fatal; char const *file; unsigned long line; unsigned mask; unsigned long ord; unsigned nmask; unsigned long nord; };
 #define VF_MAXNEEDLE 8
 static vf_report   vf_first, vf_last;      // first and most recent violation report
 static unsigned    vf_nreports, vf_nfatal;
+static unsigned    vf_first_cnt[12];       // first report: occurrences per watched string (concrete indices only)
 static char const *vf_ok_names[4];         // texts the harness wants OK reports classified against
 static unsigned    vf_nok_names;
 static int         vf_ok_last = -2;        // last OK report: index of the registered text it carries, -1 if none of them
@@ -23,6 +24,9 @@ static unsigned    vf_first_seq, vf_last_seq, vf_ok_seq;
 
 // register a watched string / number; returns its bit in vf_report::mask / nmask
 inline unsigned vf_needle(char const *s) { unsigned i = verif_watch_str(s); vf_nneedles = i + 1; return 1u << i; }
+// same, returning the watch index
+inline unsigned vf_watch(char const *s) { unsigned i = verif_watch_str(s); vf_nneedles = i + 1; return i; }
+inline unsigned vf_watchn(unsigned long v) { unsigned i = verif_watch_num(v); vf_nnums = i + 1; return i; }
 inline unsigned vf_num(unsigned long v) { unsigned i = verif_watch_num(v); vf_nnums = i + 1; return 1u << i; }
 // bit of "watched string i first occurs before watched string j" in vf_report::ord
 inline unsigned long vf_ord(unsigned i, unsigned j) { return 1ul << (i * 8 + j); }
@@ -37,15 +41,21 @@ struct reporter<specialized>
     for (unsigned i = 0; i < vf_nneedles; ++i)
     {
       if (verif_msg_cnt(msg, i) != 0) mask |= 1u << i;
-      if (vf_want_ord)
-        for (unsigned j = 0; j < vf_nneedles; ++j)
+      if (vf_want_ord && i < 8)   // order bits exist for the first 8 watched strings
+        for (unsigned j = 0; j < vf_nneedles && j < 8; ++j)
           if (i != j && verif_msg_before(msg, i, j)) ord |= vf_ord(i, j);
     }
+    unsigned long nord = 0;
     for (unsigned i = 0; i < vf_nnums; ++i)
+    {
       if (verif_msg_ncnt(msg, i) != 0) nmask |= 1u << i;
-    vf_last.fatal = s == severity::fatal; vf_last.file = file; vf_last.line = line; vf_last.mask = mask; vf_last.ord = ord; vf_last.nmask = nmask;
+      if (vf_want_ord)
+        for (unsigned j = 0; j < vf_nnums; ++j)
+          if (i != j && verif_msg_nbefore(msg, i, j)) nord |= vf_ord(i, j);
+    }
+    vf_last.fatal = s == severity::fatal; vf_last.file = file; vf_last.line = line; vf_last.mask = mask; vf_last.ord = ord; vf_last.nmask = nmask; vf_last.nord = nord;
     vf_last_seq = ++vf_seq;
-    if (vf_nreports == 0) { vf_first = vf_last; vf_first_seq = vf_last_seq; }
+    if (vf_nreports == 0) { vf_first = vf_last; vf_first_seq = vf_last_seq; for (unsigned i = 0; i < vf_nneedles; ++i) vf_first_cnt[i] = verif_msg_cnt(msg, i); }
     ++vf_nreports;
     if (s == severity::fatal) { ++vf_nfatal; throw vf_reported{}; }
   }
